@@ -94,6 +94,7 @@ pub fn regtest_cfg() -> WorldCfg {
         style: KeyDerivationStyle::Native,
         policy: make_default_simple_policy(Network::Regtest),
         now_secs: 1_700_000_000,
+        trusted_oracles: vec![],
     }
 }
 
@@ -154,10 +155,22 @@ pub fn mk_content(anchors: bool, outbound: bool, value_sat: u64, feerate: u32, o
 /// Open a channel funded by a real transaction.  Panics (harness error) if a preparation request
 /// is refused: the preparation only uses requests a node issues when opening a channel.
 pub fn open_funded(w: &mut World, spec: &ChanSpec, fs: &FundSpec) -> Funded {
+    open_funded_perm(w, spec, fs, false)
+}
+
+/// As `open_funded`; with `perm` the channel is set up with a permanent id different from its
+/// initial one (LDK-style flow) and is addressed by it afterwards.
+pub fn open_funded_perm(w: &mut World, spec: &ChanSpec, fs: &FundSpec, perm: bool) -> Funded {
     let ci = match w.new_stub(spec) {
         Out::Ok(i) => i,
         o => panic!("new_stub failed: {}", o.err_msg()),
     };
+    if perm {
+        let mut v = b"chainpool/permanent/".to_vec();
+        v.extend_from_slice(&spec.dbid.to_le_bytes());
+        v.push(spec.peer);
+        w.chans[ci].perm_id = Some(lightning_signer::channel::ChannelId::new(&v));
+    }
     let n_in = if fs.two_inputs { 2 } else { 1 };
     let fee = 1_000u64;
     let change = 50_000u64;
